@@ -3,7 +3,7 @@ import json
 import os
 import re
 
-from vcommon import Cfg, Evidence, finish, sh
+from vcommon import Cfg, Evidence, finish, sh, match_finding
 import hb
 import rcrun
 
@@ -34,9 +34,23 @@ def finding_key(sub, case, msg, cfg):
 
 
 def nm_writable(libdir):
-    """Informational: writable non-TLS data symbols defined by the release archive."""
-    rc, out = sh(["nm", "--defined-only", os.path.join(libdir, "src", "libascon_static.a")])
-    return sorted(set(l.split()[-1] for l in out.splitlines() if len(l.split()) == 3 and l.split()[1] in ("b", "B", "d", "D", "C")))
+    """Writable, non-thread-local data objects defined by the archive: (member, symbol, section).
+    .data.rel.ro (read-only after relocation) and .rodata are not writable state."""
+    rc, out = sh(["nm", "-f", "sysv", "--defined-only", os.path.join(libdir, "src", "libascon_static.a")])
+    res, member = [], ""
+    for l in out.splitlines():
+        if l.endswith(":") and "|" not in l:
+            member = l.rstrip(":").split("[")[-1].rstrip("]")
+            continue
+        f = [x.strip() for x in l.split("|")]
+        if len(f) < 7 or f[3] in ("TLS", "FUNC", "SECTION", "FILE", "NOTYPE") and f[3] != "OBJECT":
+            continue
+        sec = f[6]
+        if f[3] != "OBJECT" or f[0].startswith("DW.ref."):   # DW.ref.*: compiler-made pointer to the C++ personality routine
+            continue
+        if sec == "*COM*" or sec == ".bss" or sec.startswith(".bss.") or sec == ".data" or (sec.startswith(".data.") and not sec.startswith(".data.rel.ro")):
+            res.append((member, f[0], sec))
+    return sorted(set(res))
 
 
 def run(tier):
@@ -51,16 +65,45 @@ def run(tier):
     b = bins(tier)
     ev.configs = [n for n, _ in b]
     rcrun.run_rc(ev, b, [("c16_threads", 1600 if tier == "quick" else 16000, 100)], finding_key, env_extra=ENV)
-    try:
-        from vcommon import build_lib
-        ev.extra["writable_data_symbols_in_release_archive"] = nm_writable(build_lib(Cfg("asm")))
-    except Exception as e:
-        ev.notes.append("nm listing failed: %s" % e)
+    # first use: one fresh child process per case (no library call has happened in it before the threads start)
+    rcrun.run_rc(ev, b, [("c16_first_use", 1500 if tier == "quick" else 20000, 100)], finding_key, env_extra=dict(ENV, VERIF_FORK="1"))
+    # "the library keeps no hidden mutable global state": enumerate the writable, non-thread-local data objects of the
+    # release archives (exhaustive over the symbols of each configuration)
+    from vcommon import build_lib, save_replay
+    listed = {}
+    for c in hb.quick_cfgs() if tier == "quick" else hb.quick_cfgs() + hb.five_backends():
+        syms = nm_writable(build_lib(c))
+        ev.evaluations += 1
+        ev.classes["archive-symbol-scan"] = ev.classes.get("archive-symbol-scan", 0) + 1
+        for member, sym, sec in syms:
+            key = "c16:writable-global:%s" % re.sub(r"\.\d+$", "", sym)
+            if key in listed:
+                continue
+            listed[key] = True
+            f = match_finding(PROP, key)
+            if f:
+                ev.known.append("%s [%s]" % (f["what"], key))
+                continue
+            obj = {"kind": "symbol", "config": c.name, "member": member, "symbol": sym, "section": sec, "check": PROP,
+                   "message": "[%s] %s defines the writable global object '%s' in %s: hidden mutable state shared by all threads" % (c.name, member, sym, sec)}
+            ev.violations.append({"replay": save_replay(PROP, obj), "message": obj["message"], "key": key})
+    ev.extra["writable_data_symbols_in_release_archives"] = sorted(listed)
     return finish(ev)
 
 
 def replay(path):
     obj = json.load(open(path))
+    if obj.get("kind") == "symbol":
+        from vcommon import build_lib
+        allq = {c.name: c for c in hb.quick_cfgs() + hb.five_backends()}
+        hit = [x for x in nm_writable(build_lib(allq[obj["config"]])) if re.sub(r"\.\d+$", "", x[1]) == re.sub(r"\.\d+$", "", obj["symbol"])]
+        if hit:
+            print(obj["message"])
+            print("VIOLATION property=%s replay=%s" % (PROP, path))
+            return 1
+        print("REPLAY-PASS")
+        return 0
     allc = {c.name: c for c in cfgs("thorough")}
     b = dict(hb.harness_bins("threads", "threads.cpp", [allc[obj["config"]]], tape=None, extra_flags=TSAN, deps=[os.path.join(hb.H, "workload_calls.hpp")]))
-    return rcrun.replay_file(PROP, path, lambda cfg: b[cfg], env_extra=ENV)
+    env = dict(ENV, VERIF_FORK="1") if obj.get("property") == "c16_first_use" else ENV
+    return rcrun.replay_file(PROP, path, lambda cfg: b[cfg], env_extra=env)
